@@ -508,6 +508,27 @@ def check_defined(case):
                 return bad("overhead:%s:%s" % (s.enc_name, vn),
                            "record len %d for %d plaintext bytes" % (
                                r["len"], len(pt)), labels=labels)
+    # --- exported keying material: the suite's PRF hash in this version ----
+    if v >= (3, 1):
+        label = b"EXPORTER-c20-check"
+        if v == (3, 4):
+            want_exp = kdf.tls13_exporter(
+                s.prf, bytes(p.c.session.exporterMasterSecret), label, b"",
+                37)
+        else:
+            want_exp = kdf.exporter_tls12(
+                v, s.prf, bytes(p.c.session.masterSecret),
+                rv.client_hello["random"], rv.server_hello["random"], label,
+                37)
+        for conn, who in ((p.c, "client"), (p.s, "server")):
+            got_exp = bytes(conn.keyingMaterialExporter(bytearray(label), 37))
+            if got_exp != want_exp:
+                return bad("exporter-prf:%s:%s" % (s.prf if v >= (3, 3)
+                                                   else "md5sha1", vn),
+                           "%s exporter output differs from the value the "
+                           "version's PRF gives for %s" % (who, s.name),
+                           labels=labels)
+        labels.append("exporter")
     if v == (3, 4):
         hl = kdf.H[s.prf]().digest_size
         if len(p.c.session.cl_app_secret) != hl:
